@@ -124,8 +124,8 @@ def basic_flows(fam):
 def build_cases(ctx, flows, keysets):
     rng = ctx.rng
     cases = []
-    per_fam_flows = 150 if ctx.thorough else 10
-    per_fam_sets = 150 if ctx.thorough else 10
+    per_fam_flows = 350 if ctx.thorough else 10
+    per_fam_sets = 350 if ctx.thorough else 10
     useful = [f for f in flows if creates_handle(f)]
     for fam in FAMILIES:
         # fixed cases, so that every class meets success and failure on monitored and unmonitored primitives in every run
@@ -140,8 +140,12 @@ def build_cases(ctx, flows, keysets):
             ks = [dict(x) for x in FLOW_KS]
             if rng.randrange(3) == 0:
                 ks[1]["mat"] = "m%d" % rng.randrange(2, 7)
-            cases.append(dict(name="flow-%s-%d" % (fam, k), fam=fam, rot=rng.randrange(8), ks=with_faulty(rng, fam, ks), flow=fl,
-                              pub=fam in ASYM and rng.randrange(3) == 0))
+            has_public = any(st["do"] == "public" for st in fl)
+            if has_public and fam not in ASYM:
+                continue            # Handle.Public() exists for private keysets only
+            pub = fam in ASYM and not has_public and rng.randrange(3) == 0
+            cases.append(dict(name="flow-%s-%d" % (fam, k), fam=fam, rot=rng.randrange(8), ks=ks if has_public else with_faulty(rng, fam, ks),
+                              flow=fl, pub=pub))
         sets = keysets if len(keysets) <= per_fam_sets // 3 else rng.sample(keysets, per_fam_sets // 3)
         for k, ks in enumerate(sets):
             mats = rng.sample(range(1, 7), len(ks))     # distinct key material within a keyset (see assumptions)
@@ -364,7 +368,7 @@ def run(ctx):
         "two primitives out of {AEAD, VERIFY, PRF, JWTMAC, STREAM}, up to 2 (quick) / 3 (thorough) calls (success by any key that may have worked, "
         "failure) and accessors; and the annotation flows (Read with <= 2 WithAnnotations options, NewManager, NewManagerFromHandle, SetAnnotations, "
         "Manager.Handle, Public) over <= 2/3 handles; 5 fault classes must each violate the invariant stating the clause. (R) every maximal path of "
-        "Plan_Monitoring's flow machine (quick: <= 3 steps, a seeded sample of 10 per family; thorough: <= 4 steps, 150 per family) and every "
+        "Plan_Monitoring's flow machine (quick: <= 3 steps, a seeded sample of 10 per family; thorough: <= 4 steps, 350 per family) and every "
         "well-formed keyset of <= 2/3 keys x 3 statuses x 2/4 prefix types (sampled likewise) under 3-4 basic flows, each executed for 11 key "
         "families with real keys (1-4 key types each, a failing stub key as primary in a third of the cases): on every handle every class's "
         "factory, every operation as success / failure (stub failure, nil JWT, absurd PRF length, malformed prehash; inputs by ENABLED keys, by "
@@ -421,7 +425,7 @@ def run(ctx):
     report(ctx, mism, lines1, "R")
     ctx.cov["traces_validated_against_impl"] += len(cases)
     # ---------------------------------------------------------------- (T) random histories
-    nh = 550 if ctx.thorough else 44
+    nh = 990 if ctx.thorough else 44
     steps = 80 if ctx.thorough else 60
     jobs = [["-random", str(nh // 11), "-steps", str(steps), "-stream", str(i)] for i in range(11)]
     files, t2 = run_driver(ctx, drv, jobs, "hist")
